@@ -3,5 +3,5 @@ Require Import ExtrOcamlBasic.
 From LedgerV Require Import Base.Prelude Base.ExtractHelpers Gen.CsvFormat Model.Escape.
 Extraction "model_C18.ml" h_add h_mul h_div h_mod h_opp h_ltb h_eqb h_qred h_qmake h_qnum h_qden
   src_csv_format csv_out emacs_out xml_transactions xml_accounts xml_commodities
-  emacs_escape csv_quoted csv_quoted_rfc join_lines xml_encode
+  emacs_escape csv_quoted csv_quoted_rfc join_lines xml_encode xml_walk_name
   lisp_read csv_read_rfc csv_read_bs xml_decode xml_tags well_nested.
